@@ -5,6 +5,7 @@ package main
 
 import (
 	"strings"
+	"unicode/utf8"
 
 	"github.com/cockroachdb/redact"
 )
@@ -384,6 +385,24 @@ func runC13(c *Ctx) {
 		})
 		c.AddCount("exhaustive_histories_len3_reduced_alphabet", m*m*m)
 	}
+	// Directed: a long payload (below, at and above the buffer's 64-byte bootstrap size) that may end inside a multi-byte
+	// sequence or a marker, then a payload that may continue it, through every pair of string-taking methods, with every
+	// accessor and resetter at every position.
+	var split [][]Op
+	for _, pad := range []int{3, 61, 62, 63, 64, 65, 70, 200} {
+		for _, tail := range longTails {
+			for _, cont := range append([]string{"b"}, contPayloads...) {
+				for _, m1 := range stringMethods {
+					for _, m2 := range stringMethods {
+						s1, s2 := strings.Repeat("x", pad)+tail, uniq(cont, 1)
+						split = append(split, []Op{{M: m1, S: s1, V: utf8.ValidString(s1)}, {M: m2, S: s2, V: utf8.ValidString(s2)}})
+					}
+				}
+			}
+		}
+	}
+	c.ParallelFor(int64(len(split)), func(w *Worker, i int64) { c13all(w, split[i], true, nil) })
+	c.AddCount("directed_split_payload_histories", int64(len(split)))
 	nRand := c.pick(120000, 1500000)
 	c.ParallelFor(nRand, func(w *Worker, i int64) {
 		r := newRng(c.Seed, 0xc13, uint64(i))
